@@ -385,7 +385,10 @@ def c11(out):
     run_sharded(out, exe, ["--prop", "C11", "--mode", "xbe"], "msan", n(out, 1200, 40000), label="msan-par")
     # long-lived CTR objects with calls of 64 KiB..1 MiB under MSan: every output byte of every call is shadow-tested
     exe = build_driver("drv_ctr", ["drv_ctr.c"] + HIST, "msan")
-    run_sharded(out, exe, ["--prop", "C11", "--mode", "marathon", "--marathon-ops", "4000", "--case-timeout", "600"], "msan", 7 if out.tier == "quick" else 28, shards=7, label="msan-marathon")
+    run_sharded(out, exe, ["--prop", "C11", "--mode", "marathon", "--marathon-ops", "2500", "--marathon-bigfreq", "200", "--case-timeout", "600"], "msan", 14 if out.tier == "quick" else 56, shards=14, label="msan-marathon")
+    # parallel-ECB calls of 4096 .. 70001 blocks under MSan with the output buffer pre-marked undefined
+    exe = build_driver("drv_par", ["drv_par.c"] + HIST, "msan")
+    run_sharded(out, exe, ["--prop", "C11", "--mode", "big", "--case-timeout", "600"], "msan", 36 * 7, shards=12, label="msan-big-parallel")
     exe = build_driver("drv_keys_vg", ["drv_keys.c"] + HIST, "prod", extra=["-DVH_VALGRIND"])
     run_sharded(out, exe, ["--prop", "C11", "--mode", "c11", "--case-timeout", "900"], "prod", n(out, 1600, 40000), label="memcheck-keys", wrapper=VG, timeout=3000)
     if out.tier == "thorough":
@@ -411,19 +414,19 @@ def c11(out):
 # --------------------------------------------------------------------- C13
 @check("C13")
 def c13(out):
-    out.rule = ("case index -> (init function of six, emulated CPU model of six, trapped x4 / real CPUID x1); in each case the init is called 24 times through an assembly trampoline with rcx, rdx, rsi, r8-r11, rbx, rax "
+    out.rule = ("case index -> (init function of six, emulated CPU model of eight incl. two where XGETBV is emulated by single-stepping (XCR0=3, XCR0=1), trapped x4 / real CPUID x1); in each case the init is called 24 times through an assembly trampoline with rcx, rdx, rsi, r8-r11, rbx, rax "
                 "set to 0,1,2,3,7,0x100,0xdeadbeef,~0 and random values, handle pre-filled 0x00/0xCC, stack painted; every CPUID executed is trapped (arch_prctl ARCH_SET_CPUID) and logged with its leaf and sub-leaf register; "
                 "oracle: selected back end (from the handle) == widest back end compiled in and supported by the served CPUID table + real XCR0, identical on every call, leaf-7 sub-leaf register independent of the "
-                "calling context, parallel_size behaves as the selected back end's batch. distinct = distinct (init, model, register context).")
-    builds = [("prod", 1, 1, n(out, 720, 18000))]
+                "calling context, parallel_size behaves as the selected back end's batch; for CPU/OS models without usable AVX a whole object life cycle is single-stepped (EFLAGS.TF) and no VEX/EVEX-encoded instruction may execute in library code. distinct = distinct (init, model, register context).")
+    builds = [("prod", 1, 1, n(out, 960, 24000))]
     if out.tier == "thorough":
         builds += [("clang", 1, 1, 3600), ("prod+O0", 1, 1, 3600), ("prod+NOAVX2", 1, 0, 1800), ("prod+NOSIMD", 0, 0, 1800), ("clang+O1", 1, 1, 1800), ("prod+O1", 1, 1, 1800)]
     else:
-        builds += [("prod+O0", 1, 1, 360), ("clang", 1, 1, 360), ("prod+NOSIMD", 0, 0, 180)]
+        builds += [("prod+O0", 1, 1, 480), ("clang", 1, 1, 480), ("prod+NOSIMD", 0, 0, 240)]
     for vname, h128, h256, cases in builds:
         exe = build_driver("drv_cpuid", ["drv_cpuid.c"] + HIST, vname)
         run_sharded(out, exe, ["--has128", str(h128), "--has256", str(h256)], vname, cases)
-    out.assumptions += ["CPU models are emulations served through CPUID faulting on one physical CPU; XGETBV cannot be trapped, so 'OS has not enabled AVX state' is represented only through OSXSAVE=0",
+    out.assumptions += ["CPU models are emulations served through CPUID faulting on one physical CPU; XGETBV is emulated only in the two single-stepped XCR0 models (slow: 6 calls per case)",
                         "expected back end = widest of {generic, vec128 if SSE2, vec256 if max leaf>=7 and leaf7.0 EBX[5] and OSXSAVE and AVX and XCR0[2:1]=11b} that the build compiled in"]
 
 
